@@ -40,13 +40,16 @@ def check_init(prog, an, rep, cn, f, kname, inert_fields):
                 return None
             ent = st.must.get((t[1], t[2]))
             return ent[1] if ent is not None else None
+        def is_null(v):
+            # a literal NULL, or a value this exit knows to be NULL (the failed allocation's own result stored as is)
+            return v in (("null",), ("c", 0)) or (v is not None and ("eq", v, ("null",)) in st.facts)
         first = inert_fields[0]
         v0 = val(first)
-        if v0 in (("null",), ("c", 0)):
+        if is_null(v0):
             hit = first
         elif len(inert_fields) > 1 and v0 is not None and v0[0] == "p" and v0[1][0][0] == "global":
             v1 = val(inert_fields[1])
-            if v1 in (("null",), ("c", 0)):
+            if is_null(v1):
                 hit = "%s (behind a valid %s)" % (inert_fields[1], first)
         if hit:
             rep.ok("C16.R1", inst, csite(esite), "obj->%s := NULL definitely stored before returning 0" % hit, cfg=cn)
